@@ -53,6 +53,12 @@ def cases(ctx):
             yield Case(f'b58_addr {np(ty, net2)} {hx(h)}', 'ms', nontrivial=True, tag='addr-other-net')
         s = b58c(prefix(ty, net) + h)
         yield Case(f'b58_accept {np(ty, net)} {sh(s)}', 'ms', nontrivial=nt, tag='accept-valid')
+        if rng.random() < 0.4:
+            # the very same string, just accepted above, offered to the other address type and on another network
+            oty = 'p2sh' if ty == 'p2pkh' else 'p2pkh'
+            onet = rng.choice([n for n in NETS if prefix(ty, n) != prefix(ty, net)])
+            yield Case(f'b58_accept {np(oty, net)} {sh(s)}', 'ms', nontrivial=True, tag='reject-same-string-other-type')
+            yield Case(f'b58_accept {np(ty, onet)} {sh(s)}', 'ms', nontrivial=True, tag='reject-same-string-other-net')
     for _ in range(ctx.n(120, 5000)):
         ty = rng.choice(['p2pkh', 'p2sh']); net = rng.choice(NETS); h = G.rbytes(rng, 20)
         if rng.random() < 0.2: h = bytes(rng.randrange(1, 4)) + h[3:] + b'\x01\x02\x03'[:0]
@@ -68,6 +74,12 @@ def cases(ctx):
         muts.append(('other-type', b58c(prefix(oty, net) + h)))
         onet = 'mainnet' if net != 'mainnet' else 'testnet'
         muts.append(('other-net', b58c(prefix(ty, onet) + h)))
+        for _ in range(3):      # any other version byte, valid checksum (some share the leading character of the right one)
+            v = bytes([rng.choice([x for x in range(256) if bytes([x]) != prefix(ty, net)])])
+            muts.append(('other-version', b58c(v + h)))
+        pv = prefix(ty, net)[0]
+        for v in (pv - 1, pv + 1, pv ^ 2):
+            if 0 <= v < 256: muts.append(('near-version', b58c(bytes([v]) + h)))
         muts.append(('payload19', b58c(prefix(ty, net) + h[:19])))
         muts.append(('payload21', b58c(prefix(ty, net) + h + b'\x07')))
         muts.append(('payload19-z', b58c(prefix(ty, net) + bytes(3) + h[:16])))
